@@ -334,7 +334,10 @@ def spaces(tier):
     thorough = tier == "thorough"
 
     def d1():
-        return X.depth1(Lp, tern_branches=C)
+        for e in Lp:                       # depth 0: the bare literals and references
+            yield e
+        for e in X.depth1(Lp, tern_branches=C):
+            yield e
 
     def d1c():
         return list(X.depth1(C))
@@ -345,7 +348,7 @@ def spaces(tier):
             for e in g:
                 yield e
 
-    sp = [("depth1 over L+refs (ternary branches over core)", "d1", d1),
+    sp = [("depth0 + depth1 over L+refs (ternary branches over core)", "d1", d1),
           ("textual object-like macro R_TXT, depth 1", "textual", X.macro_text_family),
           ("depth2 over 6-literal core", "d2core", d2core)]
     if thorough:
